@@ -201,7 +201,7 @@ func (s *vSim) canon(gid int64, a any) any {
 		out := []string{}
 		for r, infl := range x {
 			id := s.reqPtrIDs[r]
-			if infl.hijacked {
+			if infl.hijacked.Load() {
 				id += "!"
 			}
 			out = append(out, id)
